@@ -1,7 +1,7 @@
 # Run table and MANIFEST text for C12.
 SPEC = dict(
     level="exploration",
-    rule="three generated checks. (1) frame property through the client API on mem / pebble / rocksdb: adversarial pairs of addresses A, B; B and bystanders populated in all five types and dumped; then write commands of every family on A ('other key'), of one family on B's own key while its other families are watched ('other type'), or the replicated whole-table delete of A's table ('table delete': its keys gone, everything else unchanged); the dump of B and the bystanders must not change. "
+    rule="three generated checks. (1) frame property through the client API on mem / pebble / rocksdb: adversarial pairs of addresses A, B; B and bystanders populated in all five types plus a three-segment bitmap (setbitv2) and a JSON document, and dumped; then write commands of every family (bitmap commands at segment-boundary offsets included) on A ('other key'), of one family on B's own key while its other families are watched ('other type'), or the replicated whole-table delete of A's table ('table delete': its keys gone, everything else unchanged); the dump of B and the bystanders must not change. "
          "(2) memcomparable tuple codec: decode(encode(x)) == x and byte order == tuple order on generated tuple pairs. (3) every key encoder of the data mapping (hook): decoder(encoder(a)) == a, injective, no collision across encoders, element keys inside their own collection / table range and outside every other. distinct_nontrivial sums the sub-runs' own rules.",
     assumptions=[
         "table names never contain ':' (the first ':' of a key defines where the table ends) and keys are non-empty",
@@ -14,6 +14,7 @@ SPEC = dict(
         dict(name="frame_pebble", pkg="c12_isolation", test="TestFramePebble", checks=600, shards=2),
         dict(name="frame_rocksdb", pkg="c12_isolation", test="TestFrameRocksdb", checks=400, shards=2),
         dict(name="codec", pkg="c12_isolation", test="TestMemCmpCodec", checks=100000, shards=2),
+        dict(name="known", pkg="c12_isolation", test="TestKnown.*", checks=1, shards=1),
         dict(name="keys", pkg="c12_isolation", test="TestKeyEncoders", checks=60000, shards=2),
     ],
     thorough=[
@@ -21,6 +22,7 @@ SPEC = dict(
         dict(name="frame_pebble", pkg="c12_isolation", test="TestFramePebble", checks=10000, shards=4),
         dict(name="frame_rocksdb", pkg="c12_isolation", test="TestFrameRocksdb", checks=8000, shards=3),
         dict(name="codec", pkg="c12_isolation", test="TestMemCmpCodec", checks=2000000, shards=3),
+        dict(name="known", pkg="c12_isolation", test="TestKnown.*", checks=1, shards=1),
         dict(name="keys", pkg="c12_isolation", test="TestKeyEncoders", checks=1000000, shards=2),
     ],
 )
